@@ -243,6 +243,7 @@ def main(argv):
     if new_viol:
         payload = {"property": pid, "tier": tier, "seed": seed, "kind": "failing-input",
                    "violations": new_viol[:5], "n_violations": len(new_viol),
+                   "all_violation_keys": [[v["key"], v["what"][:200]] for v in new_viol[:200]],
                    "broken": ctx.broken, "disagreements": ctx.disagreements[:3],
                    "rerun": "bin/check %s --replay <this file>" % pid}
         path = write_replay(pid, payload)
